@@ -1298,8 +1298,9 @@ Proof. exact all_kinds_round_trip. Qed.
      (C02_decode_of_encoding_timing: the timing points and timelines of the map the second decode
      returns).  The value side conditions, "written numbers within the parse limits" and "every stored
      velocity survives -100/sv -> 100/-x" are FACTS about every decoded map; the only hypotheses are
-     the recorded classes [rt_classes] (D28 / D8, D27, D12, D26 / D32), each refuted by a decodable
-     input.
+     the recorded classes [rt_classes] (D28 / D8 / D34 -- control-point or object times within
+     f64::EPSILON of each other without being bit-equal, the two zeros included --, D27, D12,
+     D26 / D32), each refuted by a decodable input.
 
    T02e  sliders end to end: MECHANISED per line (C02_slider_round_trip_partial, and with every field
      of the re-read slider C02_slider_round_trip_full) and COMPOSED (the slider clause of
@@ -1318,4 +1319,4 @@ Proof. exact all_kinds_round_trip. Qed.
    Everything above is also covered by the bit-exact `enc` correspondence (decode + encode model
    against the crate, slider files included) and by the C02 oracle, which compares exactly the
    items the property lists on the real crate; the classes D12, D13, D17, D21, D22, D23, D26, D27,
-   D28, D30, D31, D33 are the only failures it reports on the pinned tree. *)
+   D28, D30, D31, D33, D34 are the only failures it reports on the pinned tree. *)
